@@ -153,17 +153,34 @@ def explain_fits(meta):
     return None
 
 
-def render_outcome(html):
-    """'ok' or `err:<Class>@<file>:<function>` (innermost weasyprint frame) for render + write_pdf."""
+class Hang(Exception):
+    pass
+
+
+def render_outcome(html, limit_s=20):
+    """'ok' or `err:<Class>@<file>:<function>` (innermost weasyprint frame) for render + write_pdf; a render that
+    exceeds `limit_s` seconds of wall clock is the outcome `err:Hang@<frame>`."""
+    import signal
     import traceback
+
+    def on_alarm(signum, frame):
+        raise Hang()
+    previous = signal.signal(signal.SIGALRM, on_alarm)
+    signal.alarm(limit_s)
     try:
         document = docs.render(html)
         data = document.write_pdf()
-        return 'ok' if len(document.pages) >= 1 and data[:5] == b'%PDF-' else 'bad-output'
+        pages = len(document.pages)
+        if pages > 400:
+            return 'err:TooManyPages@layout'
+        return 'ok' if pages >= 1 and data[:5] == b'%PDF-' else 'bad-output'
     except Exception as exc:  # noqa: BLE001
         frames = [f for f in traceback.extract_tb(exc.__traceback__) if '/weasyprint/' in f.filename]
         where = f'{frames[-1].filename.split("/")[-1]}:{frames[-1].name}' if frames else 'unknown'
         return f'err:{type(exc).__name__}@{where}'
+    finally:
+        signal.alarm(0)
+        signal.signal(signal.SIGALRM, previous)
 
 
 def fits_cases(rng, features=None, focus=None):
